@@ -454,6 +454,9 @@ func (m *model) evalInc(n Node, cx mctx) ([]*hx.N, error) {
 		sc.by[""] = &supplied{kids: n.Kids, form: "plain", env: cx.env, sc: cx.sc}
 	}
 	m.st.add("instances")
+	if m.c.Short {
+		m.st.add("shorthand-component-tag")
+	}
 	if cx.inComp > 0 {
 		m.st.add("nested-include")
 	}
